@@ -37,7 +37,12 @@ int main(void) {
     current_test = &dummy;
     while (fgets(line, sizeof line, stdin)) {
         nfail = 0;
-        if (!strncmp(line, "ret ", 4)) {
+        if (!strncmp(line, "state ", 6)) {
+            /* the reporter's counters as a test finds them when earlier tests of its suite / earlier suites have failed or passed */
+            int f, tf, p; sscanf(line, "state %d %d %d", &f, &tf, &p);
+            reporter->failures = f; reporter->total_failures = tf; reporter->passes = p; reporter->total_passes = p + tf;
+            printf("state");
+        } else if (!strncmp(line, "ret ", 4)) {
             long long v; sscanf(line, "ret %lld", &v);
             expect(f_ret, will_return(v));
             long long r1 = (long long)f_ret();
